@@ -41,6 +41,12 @@ def check(run):
         _deps(run, F, 'drivers', 'isnone', 'accessors', 'casts', 'wrappers', 'fast_paths')
         ks = {k.name: k for k in find_kernels(F) if k.fn.file.endswith(('cmp.rs', 'norm.rs'))}
         run.floor('C03', 'kernels in cmp.rs + norm.rs', len(ks), 7)
+        if cfg == 'base':
+            # the z-score's zero-spread test is on the window's variance itself
+            import casrules
+            run.rule('VAR.floor', casrules.FLOOR_RULE)
+            nf_ = casrules.check_floors(run, F, ('norm.rs',))
+            run.floor('VAR.floor', 'variance floors', nf_, 1)
         models = {}
         for name, k in ks.items():
             m = KernelModel(k)
